@@ -14,9 +14,9 @@ from ..symex import And, Or, Not, Implies, Ite, Iff
 
 ID = 'C05'
 OPS = ('qa', 'qu', 'adv', 'exec')
-CHARTS = ('ignore', 'react_send', 'chain', 'two_sends')
+CHARTS = ('ignore', 'react_send', 'chain', 'two_sends', 'eventless_internal')
 LEVELS = {
-    'quick': [{'name': 'L1-K4', 'K': 4, 'budget_s': 150},
+    'quick': [{'name': 'L1-K4', 'K': 4, 'budget_s': 220},
               {'name': 'L2-inductive-q3', 'harness': 'ind', 'Q': 3, 'budget_s': 60}],
     'thorough': [{'name': 'L1-K4', 'K': 4, 'budget_s': 300},
                  {'name': 'L2-K5', 'K': 5, 'budget_s': 1200},
@@ -29,9 +29,9 @@ WITNESSES = ['internal_before_external', 'delayed_not_yet_due', 'due_exactly_now
 STUBS = ['interpreter clock: SimulatedClock advanced only by assignment (never started)',
          'action code: send(name, tag=T(), delay=D()) with D() a fresh symbolic real >= 0']
 ASSUMPTIONS = ['delays >= 0, advances >= 0, exact reals', 'events queued from one thread (C20 covers threads)',
-               'four fixed small charts: ignore-all, react-and-send-delayed, eventless chain, two sends per action']
+               'five fixed small charts: ignore-all, react-and-send-delayed, eventless chain, two sends per action, eventless internal transitions']
 OUTSIDE = ['histories longer than K operations (plus the draining phase) -- except through the inductive level, which starts from an arbitrary sorted queue state (private fields _internal_queue/_external_queue; skipped and reported if renamed)', 'DelayedEvent (deprecated)',
-           'other charts than the four of the family']
+           'other charts than the five of the family']
 
 
 def shards(level):
@@ -49,7 +49,7 @@ def canary_job():
 
 def make_chart(kind):
     from sismic.model import Statechart, CompoundState, BasicState, Transition
-    sc = Statechart('q')
+    sc = Statechart('q', preamble='n = 0')
     sc.add_state(CompoundState('r', initial='A'), None)
     sc.add_state(BasicState('A'), 'r')
     if kind == 'react_send':
@@ -58,6 +58,11 @@ def make_chart(kind):
     elif kind == 'two_sends':
         sc.add_transition(Transition('A', None, event='a',
                                      action="send('i', tag=T('i'), delay=D())\nsend('j', tag=T('j'))"))
+    elif kind == 'eventless_internal':
+        # an eventless *internal* transition (guarded by a counter) competes with pending events: it pre-empts them
+        # and consumes none; afterwards `a` is reacted to by an internal transition that sends
+        sc.add_transition(Transition('A', None, guard='n < 2', action='n = n + 1'))
+        sc.add_transition(Transition('A', None, event='a', action="send('j', tag=T('j'))"))
     elif kind == 'chain':
         sc.add_state(BasicState('B'), 'r')
         sc.add_state(BasicState('C'), 'r')
